@@ -8,6 +8,7 @@
 package main
 
 import (
+	"sort"
 	"bufio"
 	"bytes"
 	"crypto/hmac"
@@ -308,6 +309,103 @@ require(process.argv[4])().then((api) => {
 }).catch((e) => { fs.writeSync(1, '@@ init-failed ' + String(e).replace(/\s+/g, '_') + '\n'); process.exit(3); });
 `
 
+// exportsScript: which functions the Go program registers on globalThis (they appear while the module loads and answer a
+// call without arguments with an "error:" string), and which of them each name exported by the package's entry module is
+// bound to: by identity of the function object, or — for a wrapper — by giving the same answers on a few well-formed calls.
+const exportsScript = `
+const fs = require('fs');
+console.log = () => {};
+const before = new Set(Object.getOwnPropertyNames(globalThis));
+const S = 'GEZDGNBVGY3TQOJQGEZDGNBVGY3TQOJQ';
+const probes = {
+  generateHOTP: [[S, 1, '6', 'SHA1'], [S, 77, '8', 'SHA256'], [S, 4294967296, '10', 'SHA512']],
+  generateTOTP: [[S, 59, '6', 'SHA1', 30], [S, 1111111109, '8', 'SHA256', 60], [S, 3600, '6', 'SHA1', 60]],
+  validateHOTP: [[S, '287082', 1, '6', 'SHA1', 0], [S, '287082', 3, '6', 'SHA1', 2], [S, '000000', 1, '6', 'SHA1', 1]],
+  validateTOTP: [[S, '287082', 59, '6', 'SHA1', 0, 30], [S, '287082', 119, '6', 'SHA1', 2, 30], [S, '000000', 59, '6', 'SHA1', 1, 30]],
+  generateOTPURL: [['totp', 'My Co', 'a@b', S, '6', 'SHA1'], ['hotp', 'I', 'x y', S, '8', 'SHA512']],
+};
+require(process.argv[2])().then((api) => {
+  const globals = Object.getOwnPropertyNames(globalThis).filter((k) => {
+    if (before.has(k) || typeof globalThis[k] !== 'function' || k === 'Go') return false;
+    try { const r = globalThis[k](); return typeof r === 'string' && r.startsWith('error:'); } catch (e) { return false; }
+  }).sort();
+  const same = (a, b) => JSON.stringify(a) === JSON.stringify(b);
+  const out = {};
+  for (const name of Object.keys(api).sort()) {
+    if (typeof api[name] !== 'function') { out[name] = '?not-a-function'; continue; }
+    let g = globals.find((k) => api[name] === globalThis[k]);
+    if (!g) {
+      g = globals.find((k) => probes[k] && probes[k].every((args) => {
+        try { return same(api[name].apply(null, args), globalThis[k].apply(null, args)); } catch (e) { return false; }
+      }) && (() => { try { const r = api[name](); return typeof r === 'string' && r.startsWith('error:'); } catch (e) { return false; } })());
+    }
+    out[name] = g || '?unmatched';
+  }
+  fs.writeSync(1, '@@EXPORTS ' + JSON.stringify({ globals, exports: out }) + '\n');
+  process.exit(0);
+}).catch((e) => { fs.writeSync(1, '@@EXPORTS ' + JSON.stringify({ error: String(e) }) + '\n'); process.exit(3); });
+`
+
+func natBytes(s string) string {
+	var p []string
+	for _, b := range []byte(s) {
+		p = append(p, fmt.Sprint(b))
+	}
+	return "[" + strings.Join(p, ",") + "]"
+}
+
+// writeExports: observe the export table and write Gen/JsExports.lean
+func writeExports(node, tmp, out string) error {
+	script := filepath.Join(tmp, "exports.js")
+	os.WriteFile(script, []byte(exportsScript), 0o644)
+	cmd := exec.Command(node, script, filepath.Join(tmp, "pkg", "src", "index.js"))
+	raw, _ := cmd.CombinedOutput()
+	var res struct {
+		Error   string            `json:"error"`
+		Globals []string          `json:"globals"`
+		Exports map[string]string `json:"exports"`
+	}
+	i := strings.Index(string(raw), "@@EXPORTS ")
+	if i < 0 {
+		return fmt.Errorf("no export table observed: %s", strings.TrimSpace(string(raw)))
+	}
+	line := string(raw)[i+len("@@EXPORTS "):]
+	if j := strings.IndexByte(line, '\n'); j >= 0 {
+		line = line[:j]
+	}
+	if err := json.Unmarshal([]byte(line), &res); err != nil || res.Error != "" {
+		return fmt.Errorf("export table: %v %s", err, res.Error)
+	}
+	var b strings.Builder
+	b.WriteString("-- GENERATED by /verif/harness/cmd/wasmcorr -exports: the freshly built wasm module is loaded under Node through\n-- otp-js/src/index.js and the bindings are OBSERVED (function identity, else equal answers on probe calls). Do not edit.\n")
+	b.WriteString("namespace OtpVerif.Gen\n/-- (exported name, global function it is bound to), sorted by name -/\ndef jsExports : List (List Nat × List Nat) := [\n")
+	var names []string
+	for k := range res.Exports {
+		names = append(names, k)
+	}
+	sort.Strings(names)
+	for i, k := range names {
+		sep := ","
+		if i == len(names)-1 {
+			sep = ""
+		}
+		fmt.Fprintf(&b, "  -- %s: globalThis.%s\n  (%s, %s)%s\n", k, res.Exports[k], natBytes(k), natBytes(res.Exports[k]), sep)
+	}
+	b.WriteString("]\n/-- the globals the Go program registers -/\ndef wasmGlobals : List (List Nat) := [\n")
+	for i, g := range res.Globals {
+		sep := ","
+		if i == len(res.Globals)-1 {
+			sep = ""
+		}
+		fmt.Fprintf(&b, "  -- %s\n  %s%s\n", g, natBytes(g), sep)
+	}
+	b.WriteString("]\nend OtpVerif.Gen\n")
+	if old, err := os.ReadFile(out); err == nil && string(old) == b.String() {
+		return nil
+	}
+	return os.WriteFile(out, []byte(b.String()), 0o644)
+}
+
 func runNode(node, script, opsFile, index string, n int) ([]string, error) {
 	ans := make([]string, n)
 	start := 0
@@ -430,6 +528,7 @@ func main() {
 	driver := flag.String("driver", "/verif/lean/.lake/build/bin/driver", "")
 	repo := flag.String("repo", "/repo", "")
 	node := flag.String("node", "", "")
+	exportsOut := flag.String("exports", "", "only observe the export table and write it to this Lean file")
 	flag.Parse()
 	if *node == "" {
 		for _, c := range []string{"/root/.nvm/versions/node/v20.20.2/bin/node", "node"} {
@@ -467,6 +566,14 @@ func main() {
 			os.Exit(3)
 		}
 		os.WriteFile(filepath.Join(tmp, "pkg", "src", f), b, 0o644)
+	}
+	if *exportsOut != "" {
+		if err := writeExports(*node, tmp, *exportsOut); err != nil {
+			fmt.Println("wasmcorr -exports:", err)
+			os.RemoveAll(tmp)
+			os.Exit(3)
+		}
+		return
 	}
 	script := filepath.Join(tmp, "drive.js")
 	os.WriteFile(script, []byte(nodeScript), 0o644)
